@@ -132,3 +132,47 @@ X.NODES["pinsES"] = X.Node("pinsES", 1, lambda t: "S" if t == "S" else None,
                            lambda E, xp, inp, v: v * inp["b"], None, oponly=True, keys="b", needs_inp=True)
 
 XLEAF_NAMES = ["VCab", "JXab", "JLab", "ESab"]
+
+
+# ---- MultiLinearEinsum with three operands, every permutation of key_order, optional static operand -------
+# (the Jacobian w.r.t. one operand pairs the two fixed operands with subscripts: any mix-up of the key order is
+#  visible because the forms are not symmetric in their operands while all operands have the same shape.
+#  Every index occurs in a second operand or in the output: LinearEinsum.adjoint_times cannot broadcast an
+#  index that only the differentiated operand carries, e.g. 'i,j,k->i' raises in numpy.einsum.)
+import itertools
+
+
+def _me3(kind, perm):
+    """kind v: 'i,i,j->j' on vectors a,b,c | s: same with operand 's' static | m: 'ij,jk,kl->il' on square
+    matrices P,Q,R | n: same with Q static.  perm = key_order (operand order of the subscripts)."""
+    name = "ME3%s:%s" % (kind, "".join(perm))
+    vec = kind in "vs"
+    static = {"s": "s", "n": "Q"}.get(kind)
+    allk = ("a", "s", "b") if kind == "s" else (("a", "b", "c") if kind == "v" else ("P", "Q", "R"))
+    keys = [k for k in allk if k != static]
+
+    def op(E):
+        def make():
+            ift = E.ift
+            dom = {k: E.dom_of(k) for k in keys}
+            st = None
+            if static:
+                st = ift.MultiField.from_dict({static: E.cF if vec else ift.makeField(E.SS, E.A["cm"])})
+            return ift.MultiLinearEinsum(dom, "i,i,j->j" if vec else "ij,jk,kl->il", key_order=tuple(perm), static_mf=st)
+        return _obj(E, name, make)
+
+    def ref(E, xp, inp):
+        def val(k):
+            if k == static:
+                return xp.asarray(E.A["c"] if vec else E.A["cm"])
+            return inp[k] if vec else xp.reshape(inp[k], (X.NPIX, X.NPIX))
+        x0, x1, x2 = (val(k) for k in perm)
+        if vec:
+            return x2 * xp.sum(x0 * x1)
+        return x0 @ x1 @ x2
+    X.XLEAVES[name] = X.XLeaf(name, keys, "S" if vec else "SS", op, ref)
+    return name
+
+
+ME3_VEC = [_me3(kind, p) for kind, ks in (("v", "abc"), ("s", "asb")) for p in itertools.permutations(ks)]
+ME3_MAT = [_me3(kind, p) for kind in "mn" for p in itertools.permutations("PQR")]
